@@ -244,11 +244,15 @@ func (sp *Specs) LoadFile(path, defaultPkg string) error {
 				}
 				switch kind {
 				case "invariant", "decreases":
+					var cprops []string
+					if kind == "invariant" {
+						cprops, rest3 = takeProps(rest3)
+					}
 					e, err := ParseExpr(rest3)
 					if err != nil {
 						return fail(err)
 					}
-					c := Clause{E: e, Src: strings.TrimSpace(rest3)}
+					c := Clause{E: e, Src: strings.TrimSpace(rest3), Props: cprops}
 					if kind == "invariant" {
 						ls.Invariants = append(ls.Invariants, c)
 					} else {
